@@ -305,6 +305,29 @@ theorem setMethod_wf (sp : OptSpec K W M) (st : OptState K W M) (hwf : st.WF sp)
     have hw := hwf k
     show (if sp.S k = true then st.vals k else if sp.I m k = true then some (sp.dI m k) else none).isSome = _
     cases hs : sp.S k <;> cases hi : sp.I m k <;> simp_all
+/-- the rule of the pinned tree before its repair (ec8bfa4): the second pass of `_parse_options` compared the new
+integrator options with *all* old options also when the method changed, so an option given with the value it already
+had was dropped together with the old integrator's options -/
+def optAtOld (sp : OptSpec K W M) (st : OptState K W M) (new : NewOpts K W M) (k : K) : Option W :=
+  let (newSolver, newOdeRaw) := parseOptions new.opts sp.S sp.dS st.vals
+  let m' := new.method.getD st.method
+  let oldOptions : K → Option W := if m' = st.method then st.vals else fun k => if sp.S k then st.vals k else none
+  let (newOde, _) := parseOptions newOdeRaw (sp.I m') (sp.dI m') st.vals
+  match newOde k with
+  | some w => some w
+  | none => match newSolver k with
+    | some w => some w
+    | none => match oldOptions k with
+      | some w => some w
+      | none => if sp.S k then some (sp.dS k) else if sp.I m' k then some (sp.dI m' k) else none
+
+/-- … and that rule does not meet the specification: one integrator key with default 8, a solver built with method
+`false` and the value 12, then `options = {method: true, key: 12}` leaves the default 8 instead of 12 -/
+example :
+    let sp : OptSpec Unit Nat Bool := { S := fun _ => false, I := fun _ _ => true, dS := fun _ => 0, dI := fun _ _ => 8 }
+    let st : OptState Unit Nat Bool := { method := false, vals := fun _ => some 12 }
+    let new : NewOpts Unit Nat Bool := { method := some true, opts := fun _ => some (some 12), keys := [()] }
+    optAtOld sp st new () = some 8 ∧ optAt sp st new () = some 12 := by decide
 end optionsThm
 
 end Qv.C11
